@@ -9,6 +9,7 @@ Three independent renderers meet here:
     classify an opacity failure found by the differential, and it is tied to the Coq model
     through the observation row of (origin, pass) pairs.
 """
+import json
 import re
 
 from . import common
@@ -28,7 +29,10 @@ def esc(s):
 
 
 def unesc(s):
-    return s.replace(PUA_L, "{").replace(PUA_R, "}")
+    """placeholders back to braces; json.dumps() (ensure_ascii) writes the two placeholders as the
+    six-character escapes \\u27e6 / \\u27e7, which are never generated as literal text"""
+    return (s.replace(PUA_L, "{").replace(PUA_R, "}")
+             .replace("\\u27e6", "{").replace("\\u27e7", "}"))
 
 
 def pr_node(n, escd=False):
@@ -111,7 +115,7 @@ def truthy(v):
 
 
 FILTERS = ("upper", "lower", "trim", "title", "length", "json", "repr")
-MODELLED_FILTERS = ("upper", "lower", "trim", "length")
+MODELLED_FILTERS = FILTERS            # all seven built-in filters are generated and modelled
 WORD = re.compile(r"\A\w+\Z")
 
 
@@ -124,7 +128,60 @@ class RefMissing(Exception):
         self.name = name
 
 
-def apply_filter(f, pv):
+# custom filters: Ribosome(filters={name: callable}); a case carries "filters": [[name, kind], ...]
+# (distinct identifier names, possibly those of built-in filters).  The callables are the USER's, so the
+# reference applies them itself to the raw value.
+CUSTOM = {
+    "parens": lambda x: str(x).replace("{", "(").replace("}", ")"),    # looks at the braces of the value
+    "rev": lambda x: str(x)[::-1],                                      # permutes the value
+    "wrap": lambda x: "{{" + str(x) + "}}",                             # its RESULT carries template syntax
+    "str": str,
+    "len": len,                                                         # returns an int; TypeError on unsized values
+}
+COQ_CUSTOM = {"parens": "CParens", "rev": "CRev", "wrap": "CWrap", "str": "CStr", "len": "CLen"}
+CUSTOM_NAMES = ["parens", "rev", "wrap", "same", "size", "upper", "json", "nofilter", "dflt", "length"]
+
+
+def case_filters(case):
+    return [list(x) for x in (case.get("filters") or [])]
+
+
+def unesc_plain(s):
+    return s.replace(PUA_L, "{").replace(PUA_R, "}")
+
+
+def unesc_deep(x):
+    if isinstance(x, str):
+        return unesc_plain(x)
+    if isinstance(x, list):
+        return [unesc_deep(y) for y in x]
+    if isinstance(x, tuple):
+        return tuple(unesc_deep(y) for y in x)
+    if isinstance(x, dict):
+        return {k: unesc_deep(v) for k, v in x.items()}
+    return x
+
+
+def py_filters(table, escd=False):
+    """the filters= argument.  For the run with neutralised braces every custom callable is conjugated with the
+    renaming (it is given the value with its braces back and its result is renamed), so that a brace-sensitive
+    filter behaves the same in both runs."""
+    if not escd:
+        return {n: CUSTOM[k] for n, k in table}
+    return {n: (lambda x, f=CUSTOM[k]: esc(str(f(unesc_deep(x))))) for n, k in table}
+
+
+def filter_names(table):
+    return set(FILTERS) | {n for n, _k in table}
+
+
+def apply_filter(f, pv, table=()):
+    for n, k in table:                 # self.filters = {**BUILTIN_FILTERS, **filters}
+        if n == f:
+            try:
+                return str(CUSTOM[k](pv))
+            except TypeError:
+                raise RefTypeError()
     if f == "upper":
         return str(pv).upper()
     if f == "lower":
@@ -135,15 +192,22 @@ def apply_filter(f, pv):
         if isinstance(pv, (str, list, tuple)):
             return str(len(pv))
         raise RefTypeError()
-    raise ValueError("filter not modelled: " + f)
+    if f == "title":
+        return str(pv).title()
+    if f == "json":
+        return json.dumps(pv)
+    if f == "repr":
+        return repr(pv)
+    raise ValueError("not a built-in filter: " + f)
 
 
 # ---------------------------------------------------------------------------
 # the reference renderer: ONE left-to-right expansion of the AST; bound values,
 # items and defaults are emitted verbatim and never looked at again.
 # ---------------------------------------------------------------------------
-def ref_render(templates, main, ctx, strict=False):
+def ref_render(templates, main, ctx, strict=False, filters=()):
     """-> dict(text, missing: [names of missing plain variables], error: None|'value'|'type'|'depth')"""
+    FN = filter_names(filters)
     C = dict((k, v) for k, v in ctx)
     T = dict((k, v) for k, v in templates)
     missing = []
@@ -168,9 +232,9 @@ def ref_render(templates, main, ctx, strict=False):
             return str(py_value(C[n[1]])) if n[1] in C else ""
         if k == "P":
             x, w = n[1], n[2]
-            if WORD.match(w) and w in FILTERS:
+            if WORD.match(w) and w in FN:
                 if x in C:
-                    return apply_filter(w, py_value(C[x]))
+                    return apply_filter(w, py_value(C[x]), filters)
                 return "{{" + x + "|" + w + "}}"
             return str(py_value(C[x])) if x in C else w
         if k == "G":
@@ -278,10 +342,11 @@ def _cat(parts):
     return TS("".join(p.t for p in parts), [x for p in parts for x in p.o])
 
 
-def mirror_render(templates, main_text, pctx, strict=False, max_depth=60, shielding=True):
+def mirror_render(templates, main_text, pctx, strict=False, max_depth=60, shielding=True, filters=()):
     """templates: [(name, text)]; pctx: Python context.
     -> dict(text, origins, warnings [(kind, name)], error None|(kind, name), pairs set((origin, pass)))"""
     T = dict(templates)
+    FN = filter_names(filters)
     pairs = set()
     shield_ = shield if shielding else (lambda t: t)       # shielding=False: the pipeline before 1548caf,
     unshield_ = unshield if shielding else (lambda t: t)   # used only to name the channel of a regression
@@ -363,9 +428,9 @@ def mirror_render(templates, main_text, pctx, strict=False, max_depth=60, shield
         def r_filt(m, ts):
             x, f = m.group(1), m.group(2)
             if x in pctx:
-                if f in FILTERS:
+                if f in FN:
                     try:
-                        return TS.of(shield_(apply_filter(f, pctx[x])), O_FILTERED)
+                        return TS.of(shield_(apply_filter(f, pctx[x], filters)), O_FILTERED)
                     except RefTypeError:
                         raise MirrorError("type")
                 warnings.append((1, f))
@@ -378,7 +443,7 @@ def mirror_render(templates, main_text, pctx, strict=False, max_depth=60, shield
             cover(ts, m.start(), m.end(), P_DEFAULT)
         found = [(m.group(0), m.group(1), ts.sl(m.start(2), m.end(2))) for m in matches]
         for g0, x, d in found:
-            if d.t not in FILTERS:
+            if d.t not in FN:
                 if x in pctx:
                     ts = replace_all(ts, g0, TS.of(shield_(str(pctx[x])), O_DEFAULT), P_DEFAULT)
                 else:
@@ -470,6 +535,11 @@ class Gen:
             x = r.choice(VARS)
             kk = r.random()
             if kk < 0.45:
+                names = getattr(self, "names", [])
+                if names and r.random() < 0.45:
+                    return ["P", x, r.choice(names)]            # a custom filter of this instance's table
+                if r.random() < 0.1:
+                    return ["P", x, r.choice(CUSTOM_NAMES)]     # custom only where the table has the name
                 return ["P", x, r.choice(MODELLED_FILTERS)]
             if self.adv and kk < 0.7:
                 return ["P", x, r.choice(ADV_DEFAULTS)]
@@ -542,6 +612,8 @@ class Gen:
 
     def case(self):
         r = self.r
+        table = self.table()
+        self.names = [n for n, _k in table]
         templates = []
         nt = r.choice([0, 1, 2, 3, 3])
         for i in range(nt):
@@ -549,8 +621,18 @@ class Gen:
             templates.append([TPL_NAMES[i], self.nodes(r.randint(1, 3), incl)])
         main = self.nodes(r.randint(1, 5), [n for n, _ in templates])
         ctx = [[v, self.value(v)] for v in VARS if r.random() < 0.6]
-        return {"templates": templates, "main": main, "ctx": ctx,
+        return {"templates": templates, "main": main, "ctx": ctx, "filters": table,
                 "strict": r.random() < 0.12, "phase": "adv" if self.adv else "free"}
+
+    def table(self):
+        """the filters= argument of the instance: none (60%), or 1..4 distinct names bound to callables of
+        the family CUSTOM; names of built-in filters are then replaced by the custom callable"""
+        r = self.r
+        if r.random() < 0.6:
+            return []
+        names = r.sample(CUSTOM_NAMES, r.randint(1, 4))
+        natural = {"parens": "parens", "rev": "rev", "wrap": "wrap", "same": "str", "size": "len"}
+        return [[n, natural[n] if (n in natural and r.random() < 0.7) else r.choice(sorted(CUSTOM))] for n in names]
 
     def registry_history(self, c):
         """2..6 operations mixing registrations (create / register / register under another name, with an
@@ -589,7 +671,8 @@ class Gen:
         cur = sorted(set(names))
         ops.append({"main": [["G", n] for n in r.sample(cur, min(len(cur), r.randint(1, 2)))] + self.leaves(0, 1, False, cur),
                     "ctx": ctx()})
-        return {"templates": templates, "calls": ops, "strict": c["strict"], "phase": c["phase"]}
+        return {"templates": templates, "calls": ops, "strict": c["strict"], "phase": c["phase"],
+                "filters": c.get("filters", [])}
 
     def history(self):
         """1..4 calls on one instance; a fifth of the histories is built so that an early call raises
@@ -620,7 +703,7 @@ class Gen:
             if r.random() < 0.3:
                 calls.insert(0, {"main": main, "ctx": good})
             return {"templates": templates, "calls": calls, "strict": kind == "strict-missing" or r.random() < 0.2,
-                    "phase": phase}
+                    "phase": phase, "filters": c.get("filters", [])}
         if r.random() < 0.4:
             return self.registry_history(c)
         k = r.choice([1, 1, 2, 2, 3, 4])
@@ -632,7 +715,8 @@ class Gen:
             main = c["main"] if r.random() < 0.4 else self.nodes(r.randint(1, 3), names)
             ctx = [[v, self.value(v)] for v in VARS if r.random() < 0.6]
             calls.append({"main": main, "ctx": ctx})
-        return {"templates": c["templates"], "calls": calls, "strict": c["strict"], "phase": phase}
+        return {"templates": c["templates"], "calls": calls, "strict": c["strict"], "phase": phase,
+                "filters": c.get("filters", [])}
 
 
 # ---------------------------------------------------------------------------
@@ -763,7 +847,7 @@ def sub_case(case, k):
     else:
         main = op["main"]
     return {"templates": reg, "strict": case["strict"], "phase": case.get("phase", "free"),
-            "main": main, "ctx": op["ctx"]}
+            "main": main, "ctx": op["ctx"], "filters": case_filters(case)}
 
 
 def _guard(fn):
@@ -791,7 +875,11 @@ def run_history(case, escd=False):
     """every operation of the history on ONE fresh Ribosome
     -> per operation None (registration) | dict(text, warnings [(kind, name)], error None|(kind, name))"""
     from operon_ai.organelles.ribosome import Ribosome, mRNA
-    r = Ribosome(strict=case["strict"], silent=True)
+    table = case_filters(case)
+    if table:
+        r = Ribosome(filters=py_filters(table, escd), strict=case["strict"], silent=True)
+    else:
+        r = Ribosome(strict=case["strict"], silent=True)
     for name, ast in case["templates"]:
         r.create_template(pr(ast, escd), name)
     out = []
@@ -835,8 +923,9 @@ def pair_signature(o, p):
     return "C12/opacity/%s->%s" % (ORIGIN_NAMES[o], PASS_NAMES[p])
 
 
-def W(main, ctx, templates=(), strict=False, phase="adv"):
-    return {"templates": [list(t) for t in templates], "main": main, "ctx": ctx, "strict": strict, "phase": phase}
+def W(main, ctx, templates=(), strict=False, phase="adv", filters=()):
+    return {"templates": [list(t) for t in templates], "main": main, "ctx": ctx, "strict": strict, "phase": phase,
+            "filters": [list(f) for f in filters]}
 
 
 # the witnesses of the eight findings repaired by 1548caf / 29cb17a, kept as regression cases
@@ -910,8 +999,8 @@ def coq_item(it):
         return f"(IBool {cbool(it['b'])})"
     if "n" in it:
         return "INone"
-    x = py_atom(it)               # float or tuple: str() and repr() are supplied pre-rendered
-    return f"(IOpaque {coq_str(str(x))} {coq_str(repr(x))})"
+    x = py_atom(it)               # float or tuple: str(), repr() and json.dumps() are supplied pre-rendered
+    return f"(IOpaque {coq_str(str(x))} {coq_str(repr(x))} {coq_str(json.dumps(x))})"
 
 
 def coq_value(v):
@@ -925,6 +1014,8 @@ def coq_value(v):
         return "VNone"
     if "f" in v:
         x = float(v["f"])
+        if not (str(x) == repr(x) == json.dumps(x)):       # true of every finite float
+            raise ValueError("float whose str/repr/json differ: %r" % x)
         return f"(VOpaque {coq_str(str(x))} {cbool(bool(x))})"
     if "t" in v:
         return "(VTuple " + clist([coq_item(it) for it in v["t"]]) + ")"
@@ -978,7 +1069,9 @@ class C12(Check):
     CASE_TYPE = "case"
     N_QUICK = 1200
     N_THOROUGH = 16000
-    RULE = ("HISTORIES of 1..6 operations on ONE Ribosome: synthesize, translate(name) (registered or not), translate(mRNA "
+    RULE = ("The instance is constructed with the default filter table (60%) or with filters={1..4 identifier names, incl. names "
+            "of built-in filters, each bound to one of five representative callables: brace-sensitive, reversing, wrapping "
+            "its argument in {{ }}, str, len}. HISTORIES of 1..6 operations on ONE Ribosome: synthesize, translate(name) (registered or not), translate(mRNA "
             "object not registered, own .name possibly a registered name, text possibly plain), create_template, "
             "register_template(t) and register_template(t, name=other) incl. re-registration with different text; the "
             "reference is always computed from the registry as it is at that moment. Values: str, int, bool, None, float "
@@ -992,8 +1085,10 @@ class C12(Check):
             "unknown includes), printed to text; contexts of strings/ints/bools/lists of strings and of string-valued "
             "dicts (dict keys may shadow item/index/first); first half delimiter-free, second half adversarial "
             "(values, items, dict values and defaults containing every template construct, stray delimiters and "
-            "unterminated openers; ~12% stray-brace text); 12% strict mode; ASCII only; filters upper/lower/trim/length "
-            "(title/json/repr never generated). non-trivial = at least one construct was expanded; distinct by case content")
+            "unterminated openers; ~12% stray-brace text); 12% strict mode; ASCII only; filtered variables use all seven "
+            "built-in filters (upper/lower/trim/title/length/json/repr - json and repr also on lists, tuples, dict items, "
+            "None, bools, floats and on strings with quotes, backslashes and control characters), the instance's custom "
+            "filters, and unknown filter names. non-trivial = at least one construct was expanded; distinct by case content")
     LEVEL_TEXT = ("Coq theorems about a hand-written executable model of Ribosome.translate as it is now (seven scanners "
                   "equivalent to the seven regexes, applied in the code's order, _shield at every substitution site, _unshield at "
                   "the end, the strict-mode rules of 29cb17a, nested include warnings) and a single-pass reference renderer over "
@@ -1002,12 +1097,16 @@ class C12(Check):
                   "whose dict keys are identifiers - braces and all template syntax allowed in values - the multi-pass model "
                   "renders exactly the single left-to-right expansion with values verbatim), c12_opacity (in the taint model no "
                   "scanner match of any pass ever covers a code point that did not come from the template: the (origin, pass) log "
-                  "is empty, any outcome), c12_strict_loop_vars / c12_strict_unbound_is_error, c12_missing_plain_var_warned, "
-                  "c12_unknown_include_marker, c12_render_uses_current_registry (on one instance every operation of a history - "
+                  "is empty, any outcome), c12_filter_applied_to_raw_value ({{x|f}} renders f applied to the bound value itself, for each of the "
+                  "seven built-in filters and every custom filter of the table), c12_strict_loop_vars / "
+                  "c12_strict_unbound_is_error, c12_missing_plain_var_warned, c12_unknown_include_marker, c12_render_uses_current_registry (on one instance every operation of a history - "
                   "registrations, synthesize, translate by name or of an mRNA object - answers a pure function of the registry at "
-                  "that moment, strict and the operation) with c12_registration_is_assignment. The value type of the theorems "
+                  "that moment, strict and the operation) with c12_registration_is_assignment. Every theorem is stated for an arbitrary custom filter table (identifier "
+                  "names bound to callables of a five-member family, possibly replacing built-in filters; the empty table is the "
+                  "default Ribosome()); json.dumps / repr / str.title are modelled in Coq (escapes, quoting, surrogate pairs). "
+                  "The value type of the theorems "
                   "covers str, int, bool, None, lists and tuples of str / string-valued dict / int / bool / None items, and floats "
-                  "and tuple items as values whose str()/repr() is supplied pre-rendered by the harness. The pre-repair pipeline is kept behind a legacy switch with ten machine-checked "
+                  "and tuple items as values whose str()/repr()/json.dumps() is supplied pre-rendered by the harness. The pre-repair pipeline is kept behind a legacy switch with ten machine-checked "
                   "refutations. Model, taint model and Coq reference renderer are tied to the code / to an independent Python "
                   "reference renderer by evaluating them in Coq on every generated template/context the implementation rendered "
                   "(delimiter-free, adversarial, sentinel-bearing).")
@@ -1018,16 +1117,25 @@ class C12(Check):
     TECHNIQUE = ("Coq proof (scanner-over-printer lemmas per pass, induction on include depth; taint pipeline transported through "
                  "erasure) + vm_compute correspondence + taint-classified escape differential")
     TRUSTED = ["modelled, not verified: \\w, \\s, str.upper/lower/strip for ASCII only (generator is ASCII plus the two "
-               "sentinels); str()/repr() of str/int/bool/list/dict for ASCII and private-use code points; filters "
-               "title/json/repr are never generated (model answers EUnmodelled)",
+               "sentinels); str()/repr()/json.dumps() of str/int/bool/None/list/tuple/dict and str.title() for ASCII and "
+               "private-use code points (the reference renderer calls Python's own json.dumps / repr / str.title)",
+               "custom filters are callables of the family harness.c12.CUSTOM (the user's code, not the library's); the "
+               "reference applies them itself to the raw value",
                "the Python taint mirror (harness) only classifies; it is compared with the Coq taint model on every case",
-               "placeholder differential: '{' '}' in context values are replaced by U+27E6/U+27E7 (printable, caseless, not \\w/\\s)"]
+               "placeholder differential: '{' '}' in context values are replaced by U+27E6/U+27E7 (printable, caseless, not \\w/\\s); "
+               "json.dumps writes them as backslash-u27e6/27e7, which is read back as the placeholder (that literal text is "
+               "never generated); in that run every custom callable is conjugated with the renaming"]
     ASSUMPTIONS = ["template text, defaults and every string of the context contain neither U+E000 nor U+E001 (the renderer's "
                    "shielding sentinels: a value 'a\\ue000b' renders as 'a{b'); sentinel-bearing values are generated and "
                    "compared with the model, but excluded from the property",
                    "dict-item keys are identifiers (a key containing braces can make the loop-body str.replace span an earlier value)",
                    "templates and values are otherwise ASCII",
                    "context variable names are identifiers other than template/self/sequence",
+                   "custom filter names are distinct identifiers (the syntax {{name|filter}} presumes \\w+ names; a custom name "
+                   "containing other characters is never matched as a filter yet suppresses the default of the same text); the "
+                   "filter table is given at construction and not mutated afterwards (r.filters[...] = ... is not exercised)",
+                   "floats are finite (str, repr and json.dumps of a finite float are the same text); json.dumps is only applied "
+                   "to JSON-serialisable values",
                    "str()/repr() of floats and of tuples used as loop items are supplied by the harness (pre-rendered), truthiness of "
                    "a float likewise; direct assignment r.templates[name] = ... and mutation of mRNA.sequence are not exercised "
                    "(no such usage in the repo's code, tests or examples)",
@@ -1107,6 +1215,31 @@ class C12(Check):
               [["xs", {"l": [{"i": 1}, {"b": True}, {"f": 1.0}, {"i": 0}, {"b": False}, {"f": 0.0}, {"f": -0.0}, {"n": None}]}],
                ["ys", {"t": [{"t": [{"i": 1}]}, {"t": [{"b": True}]}, {"t": []}]}],
                ["n", {"n": None}], ["f", {"f": -0.0}], ["tp", {"t": [{"i": 1}]}]], phase="free"),
+            # every built-in filter on values that carry template syntax, quotes, backslashes and controls,
+            # directly and through an include; sequences and non-string values through json / repr
+            W([["P", "p", "json"], ["T", "|"], ["P", "p", "repr"], ["T", "|"], ["P", "p", "title"], ["T", "|"],
+               ["P", "p", "upper"], ["T", "|"], ["P", "p", "length"], ["T", "|"], ["G", "t1"], ["T", "|"],
+               ["P", "xs", "json"], ["P", "xs", "repr"], ["P", "n", "json"], ["P", "b", "json"], ["P", "f", "repr"],
+               ["P", "q", "repr"], ["P", "q", "json"]],
+              [["p", {"s": '{"ask": "{{secret}}"}'}], ["secret", {"s": "S"}],
+               ["xs", {"l": ["{x}", {"d": [["k", "}}"], ["name", "it's"]]}, {"b": True}, {"n": None}, {"f": -0.0},
+                             {"t": [{"i": 1}]}]}],
+               ["n", {"n": None}], ["b", {"b": False}], ["f", {"f": 2.5}], ["q", {"s": "a'b\"c\\d\te\x7f{{>t1}}"}]],
+              templates=[["t1", [["T", "["], ["P", "p", "json"], ["P", "q", "title"], ["T", "]"]]]]),
+            # an instance constructed with custom filters: brace-sensitive, result carrying template syntax, a custom
+            # filter replacing the built-in "upper", an int-valued one; directly, in an if-branch and through an include
+            W([["P", "p", "parens"], ["T", "|"], ["P", "s", "wrap"], ["T", "|"], ["P", "p", "upper"], ["T", "|"],
+               ["P", "xs", "size"], ["P", "s", "lower"], ["P", "s", "parens x"], ["P", "zz", "parens"], ["G", "t1"],
+               ["I", " ", "s", [["P", "p", "same"]], None]],
+              [["p", {"s": '{"ask": "{{secret}}"}'}], ["s", {"s": "S"}], ["xs", {"l": ["{x}", "}}", {"i": 1}]}]],
+              templates=[["t1", [["T", "<"], ["P", "p", "parens"], ["P", "xs", "wrap"], ["T", ">"]]]],
+              filters=[["parens", "parens"], ["wrap", "wrap"], ["upper", "rev"], ["size", "len"], ["same", "str"]]),
+            W([["P", "n", "size"]], [["n", {"i": 3}]], filters=[["size", "len"]], phase="free"),
+            # strict mode, an unbound variable in a loop body AND len() of an int: the filtered pass raises first
+            W([["G", "t1"]], [["user_id", {"i": 42}], ["ys", {"l": ["a", "b"]}]], strict=True, phase="free",
+              templates=[["t1", [["E", " ", "ys", [["V", "m1"], ["O", "k"]]], ["P", "user_id", "length"]]]]),
+            # the same templates on a default instance: the names are unknown filters
+            W([["P", "p", "parens"], ["T", "|"], ["P", "s", "wrap"]], [["p", {"s": "{a}"}], ["s", {"s": "S"}]]),
         ]
         return base + super().corpus_cases()
 
@@ -1116,10 +1249,11 @@ class C12(Check):
     # -- implementation ----------------------------------------------------
     def _run_call(self, case, real, esc_real):
         tpl_text = [(n, pr(t)) for n, t in case["templates"]]
-        mir = mirror_render(tpl_text, pr(case["main"]), py_ctx(case["ctx"]), case["strict"])
-        ref = ref_render(case["templates"], case["main"], case["ctx"], case["strict"])
+        table = case_filters(case)
+        mir = mirror_render(tpl_text, pr(case["main"]), py_ctx(case["ctx"]), case["strict"], filters=table)
+        ref = ref_render(case["templates"], case["main"], case["ctx"], case["strict"], table)
         esc_run = esc_real if not ctx_free(case) else None
-        mir_esc = (mirror_render(tpl_text, pr(case["main"]), py_ctx(case["ctx"], True), case["strict"])
+        mir_esc = (mirror_render(tpl_text, pr(case["main"]), py_ctx(case["ctx"], True), case["strict"], filters=table)
                    if esc_run is not None else None)
         if real["error"] is None:
             wrow = []
@@ -1181,7 +1315,8 @@ class C12(Check):
                 items.append(f"(OpTranslate {coq_str(op['name'])} {cctx(op['ctx'])})")
             else:
                 items.append(f"(OpRender {coq_tpl(op['main'])} {cctx(op['ctx'])})")
-        return ctuple(T, clist(items), cbool(case["strict"]))
+        FT = clist([ctuple(coq_str(n), COQ_CUSTOM[k]) for n, k in case_filters(case)])
+        return ctuple(FT, T, clist(items), cbool(case["strict"]))
 
     # -- the property on the implementation ----------------------------------
     def monitor(self, case, obs, trace):
@@ -1243,7 +1378,8 @@ class C12(Check):
             differs = (escr["error"] != real["error"] or
                        (real["error"] is None and (unesc(escr["text"]) != real["text"] or escr["warnings"] != real["warnings"])))
             if differs:
-                faithful = (mir["error"] == real["error"] and mir["text"] == real["text"])
+                faithful = (mir["error"] == real["error"] and mir["text"] == real["text"] and
+                            (real["error"] is not None or list(mir["warnings"]) == list(real["warnings"])))
                 detail = (f"rendering {pr(case['main'])!r} gives {real['text']!r} (error {real['error']}) but with the braces "
                           f"of the bound values neutralised {unesc(escr['text']) if escr['text'] is not None else None!r} "
                           f"(error {escr['error']}): a bound value was re-interpreted as template syntax")
@@ -1253,10 +1389,21 @@ class C12(Check):
                     # the model of the current code does not explain it: name the channel with the
                     # unshielded pipeline if THAT reproduces the rendering (a shielding regression)
                     tpl_text = [(n, pr(t)) for n, t in case["templates"]]
-                    old = mirror_render(tpl_text, pr(case["main"]), py_ctx(case["ctx"]), case["strict"], shielding=False)
+                    old = mirror_render(tpl_text, pr(case["main"]), py_ctx(case["ctx"]), case["strict"], shielding=False,
+                                        filters=case_filters(case))
                     if old["error"] == real["error"] and old["text"] == real["text"] and old["pairs"]:
                         osigs = sorted({pair_signature(o, p) for o, p in old["pairs"]})
                         return Violation(osigs[0], detail + f"; reproduced by the unshielded pipeline, channels {osigs}")
+                    # no scanner match explains it (nothing was re-read as syntax): the text of a bound value
+                    # was altered on its way out.  Name the construct whose own rendering is not the expansion.
+                    loc = self._localise(case) if wf else None
+                    if loc is not None:
+                        kind, src, got, want = loc
+                        return Violation("C12/value-not-verbatim/" + kind,
+                                         f"{src!r} renders {got!r}, the expansion with the bound value verbatim is {want!r}; "
+                                         f"the difference depends on the braces inside the bound values (with them neutralised: "
+                                         f"{unesc(escr['text']) if escr['text'] is not None else None!r}, error {escr['error']}) "
+                                         f"and no scanner match of the taint model covers a value")
                     return Violation("C12/opacity/unclassified", detail + f"; the taint model does not reproduce this rendering (its channels: {sigs})")
                 if not sigs:
                     return Violation("C12/opacity/unexplained", detail + "; no scanner match of the model covers a value")
@@ -1268,8 +1415,16 @@ class C12(Check):
         if case["strict"]:
             bound_names = {k for k, _ in case["ctx"]}
             if ref["error"] == "value":
+                if real["error"] and real["error"][0] == "type":
+                    # the expansion contains BOTH a missing variable and a filter type error (len() of an int): an error
+                    # is raised, as the property asks; which of the two is met first is not stated by the property
+                    lenient = ref_render(case["templates"], case["main"], case["ctx"], False, case_filters(case))
+                    if lenient["error"] == "type":
+                        return None
                 if not (real["error"] and real["error"][0] == "value"):
-                    return Violation("C12/strict-missed", f"strict mode rendered although {ref['name']!r} is missing")
+                    return Violation("C12/strict-missed",
+                                     (f"strict mode rendered although {ref['name']!r} is missing" if real["error"] is None else
+                                      f"strict mode raised {real['error']} but no 'Missing required variable' although {ref['name']!r} is missing"))
                 return None
             if real["error"] and real["error"][0] == "value":
                 nm = real["error"][1]
@@ -1293,6 +1448,28 @@ class C12(Check):
         for nm in ref["missing"]:
             if nm not in warned:
                 return Violation("C12/missing-not-warned", f"plain variable {nm!r} is unbound and was rendered but no warning names it")
+        return None
+
+    NODE_KINDS = {"T": "text", "V": "plain", "D": "dot", "O": "optional", "G": "include", "I": "if", "E": "each"}
+
+    def _localise(self, case):
+        """the first top-level construct of a single render whose OWN rendering (fresh instance, same registry,
+        same context) is not its reference expansion -> (kind, source, rendered, reference) | None"""
+        for n in case["main"]:
+            sub = {**case, "main": [n]}
+            try:
+                real = run_real(sub)
+            except Exception:
+                continue
+            ref = ref_render(sub["templates"], sub["main"], sub["ctx"], sub["strict"], case_filters(sub))
+            if ref["error"] is not None or (real["error"] is None and real["text"] == ref["text"]):
+                continue
+            kind = self.NODE_KINDS.get(n[0])
+            if n[0] == "P":
+                table = dict(case_filters(case))
+                kind = ("filtered:custom-" + table[n[2]]) if n[2] in table else (("filtered:" + n[2]) if n[2] in FILTERS else "default")
+            got = real["text"] if real["error"] is None else "<%s>" % (real["error"],)
+            return kind, pr([n]), got, ref["text"]
         return None
 
     def nontrivial(self, case, obs, trace):
@@ -1346,12 +1523,30 @@ class C12(Check):
                 if n[0] in ("I", "E"):
                     kinds |= {"in-block:" + l[0] for l in n[3]}
         ks += sorted("node:" + k for k in kinds)
+        C = dict((k, v) for k, v in case["ctx"])
+        fk = set()
+        table = dict(case_filters(case))
+        if table:
+            fk.add("custom-filter-table")
+            if set(table) & set(FILTERS):
+                fk.add("custom-filter-replaces-builtin")
+        for ns in [case["main"]] + [t for _n, t in case["templates"]]:
+            for n in ns:
+                for l in ([n] if n[0] not in ("I", "E") else n[3] + ((n[4] or []) if n[0] == "I" else [])):
+                    if l[0] == "P" and (l[2] in FILTERS or l[2] in table):
+                        nm = ("custom-" + table[l[2]]) if l[2] in table else l[2]
+                        fk.add("filter:" + nm)
+                        if l[1] in C and not value_free(C[l[1]]):
+                            fk.add("filter-on-brace-value:" + nm)
+        ks += sorted(fk)
         for o, p in (trace.get("mirror") or {}).get("pairs", ()):
             ks.append("taint:%s->%s" % (ORIGIN_NAMES[o], PASS_NAMES[p]))
         return ks
 
     def shrink(self, case, pred):
         c = dict(case)
+        if c.get("filters"):
+            c["filters"] = common.shrink_list(c["filters"], lambda fs: pred({**c, "filters": fs}))
         if "calls" in c:
             c["calls"] = common.shrink_list(c["calls"], lambda cs: len(cs) > 0 and pred({**c, "calls": cs}))
             if len(c["calls"]) > 1:
@@ -1359,7 +1554,7 @@ class C12(Check):
             if c["calls"][0].get("op") is not None:
                 return c
             c = {"templates": c["templates"], "strict": c["strict"], "phase": c.get("phase", "free"),
-                 "main": c["calls"][0]["main"], "ctx": c["calls"][0]["ctx"]}
+                 "filters": c.get("filters", []), "main": c["calls"][0]["main"], "ctx": c["calls"][0]["ctx"]}
             if not pred(c):
                 return {**case, "calls": [{"main": c["main"], "ctx": c["ctx"]}]}
         c["main"] = common.shrink_list(c["main"], lambda ns: len(ns) > 0 and pred({**c, "main": ns}))
